@@ -43,7 +43,7 @@ Theorem C15_join_assoc : forall a x y, relb a = true -> relb x = true -> relb y 
 Proof. exact join_assoc_rel. Qed.
 Print Assumptions C15_join_assoc.
 
-(** the prefix S3Client::new stores (s3.rs:777, since /repo commit 1405318) never ends with a
+(** the prefix S3Client::new stores (s3.rs:793, since /repo commit 1405318) never ends with a
     slash and differs from the given value by trailing slashes only *)
 Theorem C15_client_prefix_trimmed : forall raw,
   pfx_ok (client_prefix raw) = true /\ exists n, raw = client_prefix raw ++ repeat slash n.
@@ -102,8 +102,8 @@ Theorem C15_below_path_segments : forall dir rel,
 Proof. exact below_segments. Qed.
 Print Assumptions C15_below_path_segments.
 
-(** the recursive listing of a directory path (list_objects, s3.rs:790-792, with the prefix
-    built by join_with_trailing_slash, s3.rs:797) returns exactly the stored paths below
+(** the recursive listing of a directory path (list_objects, s3.rs:806-808, with the prefix
+    built by join_with_trailing_slash, s3.rs:813) returns exactly the stored paths below
     "path/": each once, in key order, nothing of a sibling; every prefix value, every path *)
 Theorem C15_list_objects_below_path : forall keys raw path,
   let cprefix := client_prefix raw in
@@ -115,18 +115,74 @@ Theorem C15_list_objects_below_path : forall keys raw path,
 Proof. intros keys raw path. apply list_objects_below_lemma, client_prefix_pfx_ok. Qed.
 Print Assumptions C15_list_objects_below_path.
 
-(** purge_object (s3.rs:593-630) without a failing request: succeeds, deletes exactly the keys
-    below "<prefix>/<root>/" (one DELETE each, in key order) and keeps every other key with its
-    content - as remove_dir_all of the object root does on the file system *)
-Theorem C15_purge_exact : forall raw root bk,
+(** the deletion part of purge_object (s3.rs:618-646) without a failing request: succeeds,
+    deletes exactly the keys below "<prefix>/<root>/" (one DELETE each, in key order) and keeps
+    every other key with its content - as remove_dir_all of the object root does on the file system *)
+Theorem C15_purge_delete_exact : forall raw root bk,
   let cprefix := client_prefix raw in
   relb root = true -> keys_boundary_ok cprefix (bk_keys bk) ->
-  let out := purge_object None cprefix root (init_st bk) in
+  let out := purge_delete None cprefix root (init_st bk) in
   fst out = Ok tt /\
   st_b (snd out) = filter (fun kv => negb (starts_with (under cprefix (root ++ [slash])) (fst kv))) bk /\
   st_log (snd out) = map RDelete (filter (starts_with (under cprefix (root ++ [slash]))) (bk_keys bk)).
-Proof. intros raw root bk. apply purge_exact_lemma, client_prefix_pfx_ok. Qed.
+Proof. intros raw root bk. apply purge_delete_exact_lemma, client_prefix_pfx_ok. Qed.
+Print Assumptions C15_purge_delete_exact.
+
+(** purge_object (s3.rs:593-646, /repo commit 900305c) for an ARBITRARY id [oid] whose looked-up
+    root is [mapped] (any string the layout may produce), any inventory contents ([inv_id]), no
+    failing request.  A root that fails validate_object_root (a ".." / "." / empty part,
+    extensions/, nested within another object) is refused and nothing changes. *)
+Theorem C15_purge_refused : forall inv_id raw oid mapped bk,
+  s3_validate_object_root (bk_keys bk) (client_prefix raw) (trim_slashes mapped) = Err ->
+  purge_object inv_id None (client_prefix raw) oid mapped (init_st bk) = (Err, init_st bk).
+Proof. intros inv_id raw oid mapped bk. apply purge_refused_lemma. Qed.
+Print Assumptions C15_purge_refused.
+
+(** Otherwise it succeeds, and - with [objs] the keys directly in the root and [below] all stored
+    paths below it - the bucket is left alone exactly when the root is an object directory whose
+    inventory names ANOTHER id, or is no object directory while an object is declared somewhere
+    below it ([purge_spared]); in every other case exactly the subtree below "<prefix>/<root>/"
+    is deleted, one DELETE per key, and every other key keeps its content: only the object that
+    was asked for (or a remnant at its root that belongs to no object) is removed. *)
+Theorem C15_purge_exact : forall inv_id raw oid mapped bk objs dirs,
+  let cprefix := client_prefix raw in
+  let root := trim_slashes mapped in
+  keys_boundary_ok cprefix (bk_keys bk) ->
+  s3_validate_object_root (bk_keys bk) cprefix root = Ok tt ->
+  list_all (bk_keys bk) cprefix root true = Ok (objs, dirs) ->
+  exists below, list_all (bk_keys bk) cprefix root false = Ok (below, []) /\
+    map (under cprefix) below = filter (starts_with (under cprefix (root ++ [slash]))) (bk_keys bk) /\
+    let out := purge_object inv_id None cprefix oid mapped (init_st bk) in
+    fst out = Ok tt /\
+    (purge_spared inv_id bk cprefix oid root objs below = true -> snd out = init_st bk) /\
+    (purge_spared inv_id bk cprefix oid root objs below = false ->
+       st_b (snd out) = filter (fun kv => negb (starts_with (under cprefix (root ++ [slash])) (fst kv))) bk /\
+       st_log (snd out) = map RDelete (filter (starts_with (under cprefix (root ++ [slash]))) (bk_keys bk))).
+Proof. intros inv_id raw oid mapped bk objs dirs cprefix root. apply purge_guarded_lemma, client_prefix_pfx_ok. Qed.
 Print Assumptions C15_purge_exact.
+
+(** the guards on concrete buckets: a directory other objects are stored beneath, the root of an
+    object with another id, a path inside another object, extensions, "..", the object itself
+    (also looked up as "/coll/obj1/"), nothing stored *)
+Theorem C15_purge_guard_cases :
+  let inv_id := fun tok : bytes => match tok with c :: r => if Ascii.eqb c "I"%char then Some r else None | [] => None end in
+  let bk := [(b "p/coll/obj1/0=ocfl_object_1.0", b "x"); (b "p/coll/obj1/inventory.json", b "Icoll/obj1");
+             (b "p/coll/obj1/v1/content/a", b "y"); (b "p/1/0=ocfl_object_1.1", b "x"); (b "p/1/inventory.json", b "Iurn:obj:1");
+             (b "p/extensions/0002-flat-direct-storage-layout/config.json", b "c")] in
+  let run := fun oid mapped => purge_object inv_id None (b "p") oid mapped (init_st bk) in
+  run (b "coll") (b "coll") = (Ok tt, init_st bk) /\
+  run (b "other:1") (b "1") = (Ok tt, init_st bk) /\
+  run (b "coll/obj1/v1") (b "coll/obj1/v1") = (Err, init_st bk) /\
+  run (b "extensions") (b "extensions") = (Err, init_st bk) /\
+  run (b "../x") (b "../x") = (Err, init_st bk) /\
+  bk_keys (st_b (snd (run (b "urn:obj:1") (b "1")))) =
+    [b "p/coll/obj1/0=ocfl_object_1.0"; b "p/coll/obj1/inventory.json"; b "p/coll/obj1/v1/content/a";
+     b "p/extensions/0002-flat-direct-storage-layout/config.json"] /\
+  bk_keys (st_b (snd (run (b "coll/obj1") (b "/coll/obj1/")))) =
+    [b "p/1/0=ocfl_object_1.1"; b "p/1/inventory.json"; b "p/extensions/0002-flat-direct-storage-layout/config.json"] /\
+  run (b "nothing") (b "nothing") = (Ok tt, mkSt bk 0 []).
+Proof. exact purge_guard_cases. Qed.
+Print Assumptions C15_purge_guard_cases.
 
 (** every root S3OcflStore::write_new_object accepts for a new object (validate_object_root,
     s3.rs:242-274) is a normalised relative path - no empty, "." or ".." part, hence not empty
@@ -189,8 +245,8 @@ Example C15_purge_nonvacuous :
              (b "p/obj1/v1/content/a", b "3"); (b "p/obj10/inventory.json", b "4"); (b "p/obj1x/v1/content/a", b "5")] in
   relb (b "obj1") = true /\
   list_all (bk_keys bk) (client_prefix (b "p/")) (b "obj1") false = Ok ([b "obj1/0=ocfl_object_1.0"; b "obj1/v1/content/a"], []) /\
-  fst (purge_object None (client_prefix (b "p/")) (b "obj1") (init_st bk)) = Ok tt /\
-  st_b (snd (purge_object None (client_prefix (b "p/")) (b "obj1") (init_st bk))) =
+  fst (purge_delete None (client_prefix (b "p/")) (b "obj1") (init_st bk)) = Ok tt /\
+  st_b (snd (purge_delete None (client_prefix (b "p/")) (b "obj1") (init_st bk))) =
     [(b "p/obj1-copy/inventory.json", b "1"); (b "p/obj10/inventory.json", b "4"); (b "p/obj1x/v1/content/a", b "5")] /\
   segments (b "obj10/inventory.json") = [b "obj10"; b "inventory.json"].
 Proof. repeat split; vm_compute; reflexivity. Qed.
